@@ -660,6 +660,7 @@ func (prop c20) Execute(sc *sim.Scenario) *sim.Outcome {
 	}
 	for _, st := range sc.Steps {
 		sig = sig.Int(st.C).Str(st.Op)
+		out.Probes["op/"+st.Op]++
 	}
 	seed := uint64(sc.Cfg["rngseed"])
 	/* solo runs */
